@@ -121,12 +121,12 @@ def dictionaries_of_numbers_read_back(ctx, n):
 
 # what one (object, key) slot of a dictionary-valued parameter may hold; every one except "absent" is a stored number
 DICT_SLOT = {"absent": None, "regular": 1.5, "zero": 0.0, "negzero": -0.0, "intzero": 0, "npzero": np.float64(0.0),
-             "negative": -2.5, "tiny": 1e-300}
+             "negative": -2.5, "tiny": 1e-300, "inf": float("inf"), "neginf": float("-inf"), "huge": 1.7e308}
 
 
 @harness("C05", bounds="collections of 1..2 dictionaries str->number over 2..3 keys; every (object, key) slot symbolically "
-                       "one of: key absent, 1.5, 0.0, -0.0, int 0 (and, where rich, numpy 0.0, -2.5, 1e-300): all "
-                       "5^slots / 8^slots patterns, forked", stubs=STUBS, max_paths=50000,
+                       "one of: key absent, 1.5, 0.0, -0.0, int 0 (and, where rich, numpy 0.0, -2.5, 1e-300, +inf, -inf, "
+                       "1.7e308: NaN alone is the 'absent' marker): all 5^slots / 11^slots patterns, forked", stubs=STUBS, max_paths=50000,
          instances={"quick": [dict(n=1, nkeys=2, rich=True), dict(n=2, nkeys=2, rich=False)],
                     "thorough": [dict(n=1, nkeys=3, rich=True), dict(n=2, nkeys=3, rich=False)]})
 def dictionary_entries_read_back_whatever_their_value(ctx, n, nkeys, rich):
@@ -159,3 +159,59 @@ def dictionary_entries_read_back_whatever_their_value(ctx, n, nkeys, rich):
         ctx.check("dictionary %d reads back with the same keys" % k, sorted(got) == sorted(dicts[k]))
         ctx.check("dictionary %d reads back with the same values" % k,
                   all(key in got and float(got[key]) == float(v) for key, v in dicts[k].items()))
+
+
+# ---------------------------------------------------------------------------------------------------------------------
+# "numbers ... with any pattern of unset entries ... returned on reading with the same values": the objects of one
+# class need not all hold the same KIND of number in a scalar parameter (one holds an int, its neighbour a float).
+#
+# Candidate genuine defect (reported with a plain-Python reproduction): replaceNonesWithNonsense takes the stored type
+# from the FIRST value that is not None and casts the whole collection to it with astype: [None, 1, 2.5] is stored as
+# int64 and reads back [None, 1, 2] - accepted for writing, silently stored as something that reads back different.
+# (Without a None numpy promotes [1, 2.5] to float and nothing is lost; [None, 2.5, 1] is stored as float: fine.)
+# While the flag is True the value obligation is not stated for exactly that pattern (an integer first, a number with
+# a fractional part after it).
+KNOWN_DEFECT_first_value_decides_the_stored_number_type = True
+
+MIXED_SLOT = {"unset": None, "int": 3, "whole float": 4.0, "float": 2.5, "numpy float": np.float64(-1.5),
+              "numpy int": np.int64(7), "negative int": -2}
+
+
+@harness("C05", bounds="collections of 2..3 scalar entries, every entry symbolically one of: unset, int 3, float 4.0, "
+                       "float 2.5, numpy float -1.5, numpy int 7, int -2: all 7^n patterns (mixed kinds of number "
+                       "within one collection), forked", stubs=STUBS, max_paths=5000,
+         instances={"quick": [dict(n=2), dict(n=3)]})
+def mixed_kinds_of_numbers_with_unset_entries_read_back(ctx, n):
+    names = list(MIXED_SLOT)
+    what = [ctx.choice("entry%d" % k, names) for k in range(n)]
+    vals = [MIXED_SLOT[w] for w in what]
+    if all(v is None for v in vals):
+        return                         # all-unset parameters are not written at all
+    arr = np.array(vals)
+    if arr.dtype != object:
+        data, attrs = packSpecialData(arr, "verifParam")
+        ctx.check("clean data passes through untouched", data is arr and attrs == {})
+        back = arr
+    else:
+        arr = np.empty(n, dtype=object)
+        for k, v in enumerate(vals):
+            arr[k] = v
+        try:
+            data, attrs = packSpecialData(arr, "verifParam")
+        except (TypeError, ValueError):
+            return                     # refused at write time: allowed ("rejected with an error at write time")
+        ctx.check("stored array is not an object array", data.dtype != object)
+        back = unpackSpecialData(*through_hdf5(data, attrs), "verifParam")
+    ctx.check("one entry per object", len(back) == n)
+    first = next(v for v in vals if v is not None)
+    for k in range(min(n, len(back))):
+        if vals[k] is None:
+            ctx.check("unset entry %d reads back unset" % k, back[k] is None)
+            continue
+        lossy = (None in vals and isinstance(first, (int, np.integer)) and float(vals[k]) != int(vals[k]))
+        if KNOWN_DEFECT_first_value_decides_the_stored_number_type and lossy:
+            continue
+        ok = back[k] is not None and float(back[k]) == float(vals[k])
+        if ctx.canary and k == n - 1 and what[0] == "float" and what[k] == "numpy int":
+            ok = False
+        ctx.check("entry %d reads back with the same value" % k, ok)
